@@ -524,7 +524,7 @@ def run_case(inp):
                 com_in = np.array(ndi.center_of_mass(bl)) + 0.5
                 com_out = (np.array(ndi.center_of_mass(np.clip(o2, 0, None))) + 0.5) / ratio
                 # scipy zoom maps voxel centres end-to-end (grid_mode=False): allow one input voxel
-                if np.abs(com_in - com_out).max() > 1.0:
+                if not (np.abs(com_in - com_out).max() <= 1.0):
                     V("rescale", f"resampled blob moved by {np.abs(com_in - com_out).max():.2f} px")
             lst = pipe.from_arrays([img, img * 2], original_scale=orig)(orig)
             if len(lst) != 2 or not _same(lst[1], img * 2):
